@@ -459,7 +459,7 @@ def step (_ : Unit) (line : String) : Unit × String :=
       match limit?, ds.toNat?, ws.toNat? with
       | some limit, some depth, some width =>
         if depth > 400 || width > 4 || width == 0 then "bad-op" else
-        let tooDeep := match limit with | some l => depth > l | none => false
+        let tooDeep : Bool := match limit with | some l => decide (depth > l) | none => false
         if tooDeep then "err Deserialization ## fail deep-nesting"
         else s!"ok {depth} {1 + depth * width} ## ok"
       | _, _, _ => "bad-op"
